@@ -92,7 +92,10 @@ def run(ctx):
     except ImportError:
         out.stats.extra["distribution_part"] = "not available"
     else:
-        out.merge(c09_dist.run_cells(ctx))
+        if getattr(c09_dist, "READY", False):
+            out.merge(c09_dist.run_cells(ctx))
+        else:
+            out.stats.extra["distribution_part"] = "not enabled"
     return out
 
 
